@@ -1450,3 +1450,9 @@ package otr3
 //@   requires w != nil
 //@   modifies wout(w)
 //@   ensures [C17.export.protocol] wout(w) == scat(scat(scat(scat(old(wout(w)), "    "), "(protocol "), n), ")\n")
+
+// DSA signatures on the wire: r and s in two 160-bit fields (C10); keys whose q is larger cannot be used (C13).
+//@ func (*DSAPrivateKey).Sign
+//@   requires priv != nil
+//@   ensures [C10.sig.len] result1 == nil ==> (len(result0) == 40 && fresh(result0))
+//@   ensures [C13.sig.err] result1 != nil ==> result0 === nil
